@@ -651,6 +651,10 @@ void NiHeader::Get(NiIStream& stream) {
 
 	version.SetFile(vfile);
 
+	// Files without these fields must not inherit them from a previously read header
+	version.SetUser(0);
+	version.SetStream(0);
+
 	if (version.File() >= NiVersion::ToFile(20, 0, 0, 3))
 		stream >> endian;
 	else
